@@ -305,6 +305,9 @@ type jsonExpression struct {
 func (e Expression) MarshalJSON() (out []byte, err error) {
 	// if we are in a leaf node just marshal the value
 	if e.Op == Literal || e.Op == Wild || e.Op == Regexp {
+		if f, isFloat := e.Left.(float64); isFloat {
+			return marshalFloat(f)
+		}
 		return json.Marshal(e.Left)
 	}
 
@@ -392,17 +395,31 @@ func (e *Expression) UnmarshalJSON(data []byte) (err error) {
 	}
 
 	if len(c.Right) > 0 && looksLikeRangeBoundary(c.Right) {
-		var boundary RangeBoundary
-		err = json.Unmarshal(c.Right, &boundary)
+		// the bounds are literals, decode them exactly like any other literal so that
+		// large integers and floats keep their value and their type
+		var raw struct {
+			Min       json.RawMessage `json:"min"`
+			Max       json.RawMessage `json:"max"`
+			Inclusive bool            `json:"inclusive"`
+		}
+		err = json.Unmarshal(c.Right, &raw)
 		if err != nil {
 			return err
 		}
-		if !IsExpr(boundary.Min) {
-			boundary.Min = literalToExpr(toIntIfNecessary(boundary.Min))
+
+		boundary := RangeBoundary{Inclusive: raw.Inclusive}
+		if len(raw.Min) > 0 {
+			boundary.Min, err = unmarshalLiteral(raw.Min)
+			if err != nil {
+				return err
+			}
 		}
 
-		if !IsExpr(boundary.Max) {
-			boundary.Max = literalToExpr(toIntIfNecessary(boundary.Max))
+		if len(raw.Max) > 0 {
+			boundary.Max, err = unmarshalLiteral(raw.Max)
+			if err != nil {
+				return err
+			}
 		}
 		e.Right = &boundary
 	} else if len(c.Right) > 0 {
@@ -453,6 +470,20 @@ func unmarshalLiteral(in json.RawMessage) (e *Expression, err error) {
 	}
 
 	return literalToExpr(s), nil
+}
+
+// marshalFloat encodes a float so that it is decoded as a float again: a whole number
+// keeps a decimal point (5.0 would otherwise come back as the integer 5).
+func marshalFloat(f float64) ([]byte, error) {
+	out, err := json.Marshal(f)
+	if err != nil {
+		return out, err
+	}
+
+	if !bytes.ContainsAny(out, ".eE") {
+		out = append(out, ".0"...)
+	}
+	return out, nil
 }
 
 func isArray(in json.RawMessage) bool {
@@ -552,21 +583,6 @@ func wrapInColumn(in any) (out *Expression) {
 		}
 	}
 	return e
-}
-
-// apparently the json unmarshal only parses float64 values so we check if the float64
-// is actually a whole number. If it is then make it an int
-func toIntIfNecessary(in any) (out any) {
-	f, isFloat := in.(float64)
-	if !isFloat {
-		return in
-	}
-
-	if f == float64(int(f)) {
-		return int(f)
-	}
-
-	return f
 }
 
 func empty() Expression {
